@@ -196,8 +196,9 @@ theorem nconcat_open_block (cfg : NCfg) (P : List Char → POut) (path : List No
     (acc : List Char) (f : Node) (hf : path[b]? = some f) (hpos : f.pos = cfg.numPos) (h2 : 1 < e - b) :
     ∃ nf, nconcat cfg P path b e acc = concatNodes path b e nf := by
   unfold nconcat
+  have hnlt : ¬ e < b := by omega
   simp only [hf, hpos, bne_self_eq_false, Bool.false_eq_true, if_false, show e - b > 1 from h2,
-    decide_true, Bool.true_or, if_true]
+    decide_true, Bool.true_or, if_true, hnlt]
   cases cfg.enableNormalize
   · exact ⟨none, by simp⟩
   · exact ⟨some (P acc).norm, by simp⟩
